@@ -13,6 +13,7 @@ mod cfg;
 mod filereader;
 mod upfile;
 mod upbackup;
+mod listdir;
 
 fn dispatch(op: &str, arg: &Value) -> Result<Value, String> {
     match op {
@@ -24,6 +25,7 @@ fn dispatch(op: &str, arg: &Value) -> Result<Value, String> {
         "filereader" => filereader::op_filereader(arg),
         "upfile" => upfile::op_upfile(arg),
         "upbackup" => upbackup::op_upbackup(arg),
+        "listdir" => listdir::op_listdir(arg),
         "cfgload" => cfg::op_cfgload(arg),
         "cfgpath" => cfg::op_cfgpath(arg),
         "verify" => verify::op_verify(arg),
